@@ -20,7 +20,7 @@ EXPLANATION = (
     'every recover override advances both counters; (d) the seed is tested '
     'with `is None` on the setup and the replay path alike.  Equality of '
     'recovered and uninterrupted state at every crash point is not decided.')
-FLOORS = {'C15.a': 1, 'C15.b': 6, 'C15.c': 2, 'C15.d': 2}
+FLOORS = {'C15.a': 1, 'C15.b': 3, 'C15.c': 1, 'C15.d': 1}
 FILES = ['pyglove/core/geno/dna_generator.py', 'pyglove/core/geno/sweeping.py',
          'pyglove/core/geno/random.py', 'pyglove/core/geno/deduping.py',
          'pyglove/ext/evolution/base.py', 'pyglove/ext/evolution/regularized_evolution.py',
@@ -122,7 +122,7 @@ def rule_b(ctx):
              f'recover/replay path', c.loc,
              f'`{field}` is written by {sorted({m.name for m in own[field]})} but by no recover/_replay '
              f'path: a recovered instance differs from the uninterrupted one')
-  if n < 3:
+  if n < 2:
     raise AnalysisError(f'only {n} generator state fields found')
   # replay updates as unconditionally as feedback does
   ded = 'pyglove.core.geno.deduping.Deduping'
@@ -153,8 +153,9 @@ def rule_b(ctx):
          'feedback path does', ev.loc, '; '.join(problems))
   # recover replays population updates with the same call as _feedback
   fb = idx.func('pyglove.ext.evolution.base.Evolution._feedback')
-  same = 'self._population_update(' in A.unparse(fb.node, 9000) and 'self._population_update(' in A.unparse(ev.node, 9000) \
-      and 'self._population.append(dna)' in A.unparse(ev.node, 9000)
+  from sa import surface as S3
+  tfb, tev = S3.closure_text(idx, fb), S3.closure_text(idx, ev)
+  same = all('self._population_update(' in t and 'self._population.append(dna)' in t for t in (tfb, tev))
   ctx.ob('C15.b', ev.fq + '#population', same,
          'recovery appends to the population and applies population_update exactly as _feedback does',
          ev.loc, 'population recovery diverged from _feedback')
